@@ -1,7 +1,304 @@
-import ArchSim.Model.Asm
+/-
+C15 — Loading a program either succeeds or fails with a parser error that names an existing line
+of the text (or with the dedicated memory error); loading terminates; every run-time failure is
+reported with the address and the instruction that failed.
+
+Models: `Model/Asm.lean` (`Asm.load`), `Model/ToyAsm.lean` (`ToyAsm.load`), `Model/PP.lean`
+(`splitLines`, `pyStrip`, the scanners), `Model/Rv.lean` (`singleStep`), `Model/Pipe.lean`
+(`Pipe.step`), `Model/Sim.lean` (`Sim.step`).
+
+In the models every exception the Python can raise is a value of the error type (`AsmErr`,
+`Rv.Fault`); there is no constructor for "any other exception".  The theorems below are the
+quantitative content: *which* line a parser error names, *which* kinds occur, *where* the memory
+error comes from, that the fuel of the two fuel-driven scanners never runs out, and *which*
+address / instruction a run-time fault carries.
+
+Helper definitions (in `Lemmas/C15*.lean`):
+* `LatchOK im l` — a non-empty latch `l` holds the instruction that `im` stores at its address;
+* `ImemOK im` — at most 4096 instructions and, if there is an instruction cache, the C11 invariant;
+* `PipeOK p` — `ImemOK` and `LatchOK` for the five pipeline registers and the two registers preserved
+  during a stall;
+* `FetchOK s` — the fetch at `pc` returns the instruction stored there;
+* `FaultFits regs i f` — the fault `f` is one that instruction `i` can raise.
+-/
+import ArchSim.Lemmas.C15Toy
+import ArchSim.Lemmas.C15Outcomes
+import ArchSim.Lemmas.C15Fuel
+import ArchSim.Lemmas.C15Pipe
+import ArchSim.Lemmas.C15Examples
+
 namespace ArchSim.Props.C15
-open ArchSim.PP
-/-- Line numbers are positive: an empty text has no lines. -/
-theorem splitLines_nil : splitLines [] = [] := by
-  simp [splitLines, splitLines.go]
+open ArchSim ArchSim.PP ArchSim.Rv ArchSim.Lemmas.C15
+
+/-! ### 1, 2. A parser error names an existing line -/
+
+/-- `_sanitize` (shared by both assemblers): every sanitized line is `(k, l)` where `k` is the 1-based
+    index of a line of `text.splitlines()` and `l` is that line with its trailing comment removed,
+    stripped; the line numbers are strictly increasing (so no line is reported twice). -/
+theorem sanitize_spec (text : String) :
+    (∀ k l, (k, l) ∈ Asm.sanitize text →
+      1 ≤ k ∧ k ≤ (splitLines text.toList).length ∧
+      ∃ raw, (splitLines text.toList)[k - 1]? = some raw ∧ l = pyStrip (raw.takeWhile (· != '#'))) ∧
+    ((Asm.sanitize text).map Prod.fst).Pairwise (· < ·) ∧
+    ToyAsm.sanitize text = Asm.sanitize text :=
+  ⟨fun _ _ h => sanitize_mem' h, sanitize_sorted text, rfl⟩
+
+/-- RISC-V: whatever the text and the state, a parser error of `load_program` carries a line number
+    `k` with `1 ≤ k ≤ number of lines of the text`, and its `line` field is exactly line `k` of the
+    text with the comment removed and stripped. -/
+theorem riscv_error_line_exists (s : St) (text kind : String) (k : Nat) (line : String)
+    (h : (Asm.load s text).err = some (.parser kind k line)) :
+    1 ≤ k ∧ k ≤ (splitLines text.toList).length ∧
+    ∃ raw, (splitLines text.toList)[k - 1]? = some raw ∧
+      line = String.ofList (pyStrip (raw.takeWhile (· != '#'))) := by
+  rcases load_err_shape s text h with ⟨k', line', kind', hsrc, _, he⟩ | ⟨a, he⟩
+  · cases he; exact hsrc.lineOf
+  · cases he
+
+/-- TOY: the same for `ToySimulation.load_program`. -/
+theorem toy_error_line_exists (t : ArchSim.Toy.TSim) (text kind : String) (k : Nat) (line : String)
+    (h : (ToyAsm.load t text).2 = some (.parser kind k line)) :
+    1 ≤ k ∧ k ≤ (splitLines text.toList).length ∧
+    ∃ raw, (splitLines text.toList)[k - 1]? = some raw ∧
+      line = String.ofList (pyStrip (raw.takeWhile (· != '#'))) := by
+  rcases Toy.load_err_shape t text h with ⟨k', line', kind', hsrc, _, he⟩ | ⟨he, _⟩
+  · cases he; exact hsrc.lineOf
+  · cases he
+
+/-! ### 3. The possible outcomes of loading -/
+
+/-- RISC-V: loading succeeds, or fails with a parser error of one of exactly eight kinds, or with
+    the memory-address error. -/
+theorem load_outcomes_riscv (s : St) (text : String) :
+    (Asm.load s text).err = none ∨
+    (∃ kind k line, (Asm.load s text).err = some (.parser kind k line) ∧
+      kind ∈ ["ParserSyntaxException", "ParserDirectiveException", "ParserDataSyntaxException",
+              "ParserDataDuplicateException", "ParserVariableException", "DuplicateLabelException",
+              "ParserLabelException", "ParserOddImmediateException"]) ∨
+    (∃ a, (Asm.load s text).err = some (.memAddr a)) := by
+  cases h : (Asm.load s text).err with
+  | none => exact .inl rfl
+  | some e =>
+    rcases load_err_shape s text h with ⟨k, line, kind, _, hk, he⟩ | ⟨a, he⟩
+    · exact .inr (.inl ⟨kind, k, line, by rw [he], hk⟩)
+    · exact .inr (.inr ⟨a, by rw [he]⟩)
+
+/-- RISC-V, origin of the memory error (data memory configured as `RiscvArchitecturalState` does):
+    tokenizing and segmenting succeeded, and either the data pass failed on a direct write whose
+    32-bit-wrapped address `a` lies below the data range (`0 ≤ a < 16384`), or all passes succeeded
+    and the program has more than 4096 instructions (`a = 16384`, the first address past the
+    instruction memory). -/
+theorem riscv_memory_error_origin (s : St) (text : String) (a : Int)
+    (hcfg : s.mem.backing.cfg = Mem.riscvCfg)
+    (h : (Asm.load s text).err = some (.memAddr a)) :
+    ∃ toks data text', Asm.tokenize (Asm.sanitize text) = .ok toks ∧ Asm.segment toks = .ok (data, text') ∧
+      ∃ d, d = Asm.writeData data { mem := s.mem.reset, vars := [], ctr := 16384, err := none } ∧
+        ((d.err = some (.memAddr a) ∧ 0 ≤ a ∧ a < 16384) ∨
+         (d.err = none ∧ a = 16384 ∧
+           ∃ expanded pending ls instrs,
+             Asm.expandAll d.vars
+               (text'.map (fun (x : Asm.Entry) => ((x.1, x.2.1, x.2.2.item) : Asm.TEntry))) = .ok expanded ∧
+             Asm.processLabels expanded pending [] 0 = .ok ls ∧
+             Asm.buildInstrs ls expanded 0 = .ok instrs ∧ instrs.length > 4096)) :=
+  load_memAddr_origin s text hcfg h
+
+/-- TOY: loading succeeds, or fails with a parser error of one of exactly five kinds, or with the
+    memory-size error `MemorySizeError(4096)`; the latter only when the declared data words alone, or
+    data words plus instructions, exceed the 4096 words of memory.  (`memAddr` never occurs.) -/
+theorem load_outcomes_toy (t : ArchSim.Toy.TSim) (text : String) :
+    (ToyAsm.load t text).2 = none ∨
+    (∃ kind k line, (ToyAsm.load t text).2 = some (.parser kind k line) ∧
+      kind ∈ ["ParserSyntaxException", "ParserDirectiveException", "DuplicateLabelException",
+              "ParserDataSyntaxException", "ParserLabelException"]) ∨
+    ((ToyAsm.load t text).2 = some (.memSize 4096) ∧
+      ∃ toks data text', ToyAsm.tokenize (ToyAsm.sanitize text) = .ok toks ∧
+        ToyAsm.segment toks = .ok (data, text') ∧
+        (4096 < Toy.dataWords data ∨
+         ∃ ls is, ToyAsm.buildInstrs text' ls = .ok is ∧ 4096 < Toy.dataWords data + is.length)) := by
+  cases h : (ToyAsm.load t text).2 with
+  | none => exact .inl rfl
+  | some e =>
+    rcases Toy.load_err_shape t text h with ⟨k, line, kind, _, hk, he⟩ | ⟨he, horigin⟩
+    · exact .inr (.inl ⟨kind, k, line, by rw [he], hk⟩)
+    · exact .inr (.inr ⟨by rw [he], horigin⟩)
+
+/-! ### 4. Loading terminates -/
+
+/-- The models are total functions (Lean's termination checker accepts every definition). The only places where
+    termination is bought with fuel are the comma-separated value lists (`pMoreImms`, `pMoreValues`)
+    and the body of a quoted string (`quotedBody`); they are called with fuel = remaining input length
+    (`+ 1`).  With that much fuel it never runs out: any amount of extra fuel gives the same result. -/
+theorem totality :
+    (∀ (fuel extra : Nat) (i : Inp) (acc : List Int), i.length ≤ fuel →
+      Asm.pMoreImms (fuel + extra) i acc = Asm.pMoreImms fuel i acc) ∧
+    (∀ (fuel extra : Nat) (i : Inp) (acc : List String), i.length ≤ fuel →
+      ToyAsm.pMoreValues (fuel + extra) i acc = ToyAsm.pMoreValues fuel i acc) ∧
+    (∀ (q : Char) (fuel extra : Nat) (i : Inp) (acc : List Char), i.length ≤ fuel →
+      Asm.quotedBody q (fuel + extra) i acc = Asm.quotedBody q fuel i acc) :=
+  ⟨fun fuel extra i acc h => pMoreImms_fuel_add fuel extra i acc h,
+   fun fuel extra i acc h => pMoreValues_fuel_add fuel extra i acc h,
+   fun q fuel extra i acc h => quotedBody_fuel_add q fuel extra i acc h⟩
+
+/-! ### 5. Run-time failures, single-stage mode -/
+
+/-- Whenever `singleStep` reports a fault `(a, f)`, `a` is the program counter of the step and an
+    instruction is stored there. No hypothesis on the state. -/
+theorem single_fault_at_pc (s : St) (a : Int) (f : Fault) (h : (singleStep s).fault = some (a, f)) :
+    a = s.pc ∧ ∃ i, s.imem.instrAt a = some i :=
+  singleStep_fault_pc h
+
+/-- `RiscvSimulation.step()` in single-stage mode raises exactly when the simulation is not done and
+    the single-cycle step faults; the `InstructionExecutionException` then carries the program
+    counter of the step, the instruction stored at that address (it exists), and the fault. -/
+theorem runtime_error_typed_single (sim : Sim.RSim) (h5 : sim.five = false) (a : Int)
+    (oi : Option Instr) (f : Fault) :
+    (Sim.step sim).fault = some (a, oi, f) ↔
+      (Sim.isDone sim = false ∧ (singleStep sim.p.st).fault = some (a, f) ∧ a = sim.p.st.pc ∧
+        ∃ i, oi = some i ∧ sim.p.st.imem.instrAt a = some i) := by
+  rw [simStep_single_fault h5]
+  constructor
+  · rintro ⟨hd, hf, ho⟩
+    obtain ⟨hpc, i, hi⟩ := singleStep_fault_pc hf
+    exact ⟨hd, hf, hpc, i, by rw [ho, hi], hi⟩
+  · rintro ⟨hd, hf, _, i, ho, hi⟩
+    exact ⟨hd, hf, by rw [ho, hi]⟩
+
+/-- The kind of the fault fits the instruction at `pc` (when the fetch returns that instruction):
+    not-implemented only for `ebreak`/`fence`; unmodelled only for the CSR instructions; an invalid
+    ecall code only for `ecall`, the code being `a7` and not one of the nine service codes; a memory
+    error only for loads, stores and the print-string ecall. -/
+theorem runtime_error_kind_single (s : St) (a : Int) (f : Fault) (i : Instr) (hf : FetchOK s)
+    (hi : s.imem.instrAt s.pc = some i) (h : (singleStep s).fault = some (a, f)) :
+    match f with
+    | .notImplemented => i.op = .ebreak ∨ i.op = .fence
+    | .unmodelled => i.op.ty = .csr ∨ i.op.ty = .csri
+    | .ecallCode c => i.op = .ecall ∧ c = s.regs 17 ∧ c ∉ [1, 2, 4, 11, 34, 35, 36, 10, 93]
+    | .mem _ => i.op.ty = .memI ∨ i.op.ty = .s ∨ (i.op = .ecall ∧ s.regs 17 = 4) := by
+  have := singleStep_fault_fits hf hi h
+  cases f <;> exact this
+
+/-- `FetchOK` holds for the instruction memories the loader produces: uncached with at most 4096
+    instructions, or cached under the C11 invariant. -/
+theorem fetchOK_of_loader (s : St) (hl : s.imem.prog.length ≤ 4096)
+    (hc : ∀ c, s.imem.cache = some c → ArchSim.Lemmas.C11.IInv s.imem c) : FetchOK s := by
+  cases hcache : s.imem.cache with
+  | none => exact fetchOK_uncached hcache hl
+  | some c => exact fetchOK_cached hcache (hc c hcache) hl
+
+/-! ### 6. Run-time failures, five-stage mode -/
+
+/-- Whenever `Pipeline.step` raises in five-stage mode, the reported address and instruction are
+    those of the *input* register of the stage that raised: the EX stage (input `exInput p`: the ID/EX
+    register, or the preserved one during a stall) or, if EX did not raise, the MEM stage (input
+    `memInput p`).  The fault is a memory-system error or, in EX for an `ecall`, an invalid code. -/
+theorem runtime_error_typed_five (p : Pipe.PSt) (f : Pipe.PFault) (h : (Pipe.step p).fault = some f) :
+    (∃ d, Pipe.exInput p = some d ∧ f.addr = d.addr ∧ f.instr = d.instr ∧
+      (Pipe.exStage (exState p) (Pipe.exInput p) p.l2 p.l3).fault = some f ∧
+      ((∃ e, f.fault = .mem e) ∨ (∃ c, f.fault = .ecallCode c ∧ f.instr.op = .ecall))) ∨
+    (∃ e, Pipe.memInput p = some e ∧ f.addr = e.addr ∧ f.instr = e.instr ∧
+      (Pipe.exStage (exState p) (Pipe.exInput p) p.l2 p.l3).fault = none ∧
+      (Pipe.memStage (Pipe.exStage (exState p) (Pipe.exInput p) p.l2 p.l3).st (Pipe.memInput p)).fault = some f ∧
+      ∃ e', f.fault = .mem e') := by
+  rcases step_fault_cases h with h1 | ⟨h0, h2⟩
+  · obtain ⟨d, hd, ha, hi⟩ := exStage_fault h1
+    refine .inl ⟨d, hd, ha, hi, h1, ?_⟩
+    rcases exStage_fault_kind h1 with hk | ⟨c, hc, hop, _⟩
+    · exact .inl hk
+    · exact .inr ⟨c, hc, hop⟩
+  · obtain ⟨e, he, ha, hi⟩ := memStage_fault h2
+    exact .inr ⟨e, he, ha, hi, h0, h2, memStage_fault_kind h2⟩
+
+/-- `RiscvSimulation.step()` in five-stage mode raises exactly when the simulation is not done and
+    `Pipeline.step` raises, and reports that fault's address, instruction and kind. -/
+theorem runtime_error_reported_five (sim : Sim.RSim) (h5 : sim.five = true) (a : Int)
+    (oi : Option Instr) (f : Fault) :
+    (Sim.step sim).fault = some (a, oi, f) ↔
+      (Sim.isDone sim = false ∧ ∃ pf, (Pipe.step sim.p).fault = some pf ∧ a = pf.addr ∧
+        oi = some pf.instr ∧ f = pf.fault) :=
+  simStep_five_fault h5
+
+/-- The latch invariant holds initially (empty pipeline) … -/
+theorem latch_invariant_init (st : St) (hazard : Bool) (h : ImemOK st.imem) :
+    PipeOK (Pipe.PSt.init st hazard) :=
+  init_ok h hazard
+
+/-- … the loader establishes its instruction-memory part (whatever the text, also when loading
+    fails), provided the cache configuration suits the policy … -/
+theorem loader_establishes_imemOK (s : St) (text : String)
+    (hc : ∀ c, s.imem.cache = some c → ArchSim.Lemmas.C09.AssocOK c.isLru c.geo.assoc) :
+    ImemOK (Asm.load s text).st.imem :=
+  load_imemOK s text hc
+
+/-- … and every `Pipeline.step` preserves it, for all five pipeline registers and the registers
+    preserved during a stall — also when the step raises. -/
+theorem latch_invariant_step (p : Pipe.PSt) (h : PipeOK p) : PipeOK (Pipe.step p).p :=
+  step_ok h
+
+/-- Hence, in every state reached from an empty pipeline by any number of steps, a raised fault
+    carries an address and the instruction stored at that address. -/
+theorem runtime_error_instr_at_addr_five (st : St) (hazard : Bool) (h : ImemOK st.imem) (n : Nat)
+    (f : Pipe.PFault) (hf : (Pipe.step (pipeRun n (Pipe.PSt.init st hazard))).fault = some f) :
+    (pipeRun n (Pipe.PSt.init st hazard)).st.imem.instrAt f.addr = some f.instr :=
+  step_fault_instrAt (pipeRun_ok (init_ok h hazard) n) hf
+
+/-- The same for any state that satisfies the invariant. -/
+theorem runtime_error_instr_at_addr_five_inv (p : Pipe.PSt) (h : PipeOK p) (f : Pipe.PFault)
+    (hf : (Pipe.step p).fault = some f) : p.st.imem.instrAt f.addr = some f.instr :=
+  step_fault_instrAt h hf
+
+/-! ### Non-vacuity -/
+
+/-- A three-line text whose second line cannot be tokenized: both loaders report line 2 and the
+    line without its comment, stripped. -/
+example : Ex.exText = "# demo\n  foo bar # c\nnop" := rfl
+example (s : St) : (Asm.load s Ex.exText).err = some (.parser "ParserSyntaxException" 2 "foo bar") :=
+  Ex.ex_load s
+example (t : ArchSim.Toy.TSim) :
+    (ToyAsm.load t Ex.exText).2 = some (.parser "ParserSyntaxException" 2 "foo bar") :=
+  Ex.toy_ex_load t
+/-- … and that is what `riscv_error_line_exists` predicts: line 2 of 3 is `"  foo bar # c"`. -/
+example : (splitLines Ex.exText.toList).length = 3 ∧
+    (splitLines Ex.exText.toList)[2 - 1]? = some "  foo bar # c".toList ∧
+    String.ofList (pyStrip ("  foo bar # c".toList.takeWhile (· != '#'))) = "foo bar" := by decide
+/-- The sanitized lines of the example: the comment line is dropped, numbering is that of the text. -/
+example : Asm.sanitize Ex.exText = [(2, "foo bar".toList), (3, "nop".toList)] := Ex.ex_sanitize
+
+/-- The state the memory-error theorem is about: the data memory of `RiscvArchitecturalState`. -/
+example : Asm.freshSt.mem.backing.cfg = Mem.riscvCfg := rfl
+
+/-- Fuel: with fuel ≥ input length the whole list is read; with too little fuel the scanner would
+    stop early (so the bound in `totality` is not vacuous). -/
+example : Asm.pMoreImms 6 ", 1, 2".toList [0] = ([0, 1, 2], []) := by decide
+example : Asm.pMoreImms 1 ", 1, 2".toList [0] = ([0, 1], ", 2".toList) := by decide
+example : ToyAsm.pMoreValues 9 ", 0x1F, 7".toList ["1"] = (["1", "0x1F", "7"], []) := by decide
+example : Asm.quotedBody '"' 6 "a\\\"b\" x".toList [] = ("a\\\"b".toList, "\" x".toList) := by decide
+
+/-- A faulting single step: `lw x1, 0(x0)` at address 0 reads below the data range. -/
+example : (singleStep Ex.faultSt).fault = some (0, .mem (.addr 0)) := Ex.single_fault
+example : Ex.faultSt.imem.instrAt 0 = some Ex.lwInstr := by decide
+example : FetchOK Ex.faultSt := fetchOK_uncached rfl (by decide)
+example : (Sim.step { five := false, p := Pipe.PSt.init Ex.faultSt false }).fault
+    = some (0, some Ex.lwInstr, .mem (.addr 0)) := by decide
+
+/-- A faulting pipeline step (the MEM stage raises for the `lw` in the EX/MEM register), in a state
+    that satisfies the invariant. -/
+example : (Pipe.step Ex.faultPipe).fault = some ⟨0, Ex.lwInstr, .mem (.addr 0)⟩ := Ex.pipe_fault
+example : PipeOK Ex.faultPipe := by
+  have him : ImemOK Ex.faultSt.imem := ⟨by decide, fun c h => by cases h⟩
+  refine ⟨him, latchOK_none _, latchOK_none _, ?_, latchOK_none _, latchOK_none _,
+    fun _ h => (by cases h), fun _ h => (by cases h)⟩
+  intro x hx
+  cases hx
+  decide
+
+/-- The invariant is a genuine hypothesis: `load_program` resets the two memories but not the
+    pipeline registers, so after reloading (here: the empty program, which loads without error) in
+    the middle of a run a register still holds an instruction of the *old* program; the fault raised
+    for it carries that instruction and its old address, where the new instruction memory stores
+    nothing. -/
+example : (Sim.load { five := true, p := Ex.faultPipe } "").2 = none ∧
+    Ex.reloaded.p.st.imem.prog = [] ∧
+    (Pipe.step Ex.reloaded.p).fault = some ⟨0, Ex.lwInstr, .mem (.addr 0)⟩ ∧
+    Ex.reloaded.p.st.imem.instrAt 0 = none := Ex.reloaded_stale
+
 end ArchSim.Props.C15
